@@ -1,7 +1,7 @@
 (* C08: large properties retrievable byte-exactly by offset.
    Statements only: each theorem restates the full type of a lemma proved in coq/proofs and is closed by
    `exact`; Print Assumptions beneath.  Regenerate with bin/genprops.py after a lemma changes. *)
-From LLTD Require Import BlockFun PropsLarge.
+From LLTD Require Import BlockFun PropsLarge BufferLevel.
 
 Theorem C08_response :
   forall (ctx : N) (c : pcfg) (g : gcfg) (mtu : N) (s : ist) (buf : list N) (h : hdr),
@@ -104,3 +104,70 @@ Theorem C08_hardware_id :
   (length v < 64 -> nth (length v) sc 0%N = 0%N /\ nth (S (length v)) sc 0%N = 0%N).
 Proof. exact C08_hwid_prefix. Qed.
 Print Assumptions C08_hardware_id.
+
+Theorem C08_on_the_buffer_level_model :
+  forall (junk ctx : N) (c : pcfg) (g : gcfg) (mtu : N) (r : registry) (buf : list N)
+  (w : world) (bl : nat) (bb : N) (h : hdr),
+  c_mtu c = Some mtu ->
+  (576 <= mtu)%N ->
+  (mtu <= 9216)%N ->
+  (mtu <= c_rxsize c)%N ->
+  length buf = o (c_rxsize c) ->
+  BlockSafe.ledger_reg bl bb r w ->
+  parse_hdr buf = Some h ->
+  is_discovery_tos (h_tos h) = true ->
+  h_opc h = opcode_queryLargeTlv ->
+  h_seq h <> 0%N ->
+  let ch := chunk_spec mtu (data_for g (SystemRefinement.reg_state r ctx) (h_b0 h)) (h_w1 h) in
+  exists (r' : registry) (w' : world),
+  parse_frame no_fail no_fail junk ctx c g r buf w = Ok r' w' /\
+  w_trace w' = tx ctx (qlt_frame c h (h_seq h) (fst ch) (snd ch)) :: w_trace w /\
+  length (qlt_frame c h (h_seq h) (fst ch) (snd ch)) = 34 + length (fst ch) /\
+  length (qlt_frame c h (h_seq h) (fst ch) (snd ch)) <= o mtu /\ BlockSafe.ledger_reg bl bb r' w'.
+Proof. exact C08_buffer_level. Qed.
+Print Assumptions C08_on_the_buffer_level_model.
+
+Theorem C08_seq0_buffer_level :
+  forall (junk ctx : N) (c : pcfg) (g : gcfg) (mtu : N) (r : registry) (buf : list N)
+  (w : world) (bl : nat) (bb : N) (h : hdr),
+  c_mtu c = Some mtu ->
+  (576 <= mtu)%N ->
+  (mtu <= 9216)%N ->
+  (mtu <= c_rxsize c)%N ->
+  length buf = o (c_rxsize c) ->
+  BlockSafe.ledger_reg bl bb r w ->
+  parse_hdr buf = Some h ->
+  h_opc h = opcode_queryLargeTlv ->
+  h_seq h = 0%N ->
+  exists (r' : registry) (w' : world),
+  parse_frame no_fail no_fail junk ctx c g r buf w = Ok r' w' /\
+  w_trace w' = w_trace w /\
+  (forall k : N, SystemRefinement.reg_state r' k = SystemRefinement.reg_state r k) /\
+  BlockSafe.ledger_reg bl bb r' w'.
+Proof. exact C08_buffer_level_seq0. Qed.
+Print Assumptions C08_seq0_buffer_level.
+
+Theorem C08_icon_buffer_level :
+  forall (junk ctx : N) (c : pcfg) (g : gcfg) (mtu : N) (r : registry) (buf : list N)
+  (w : world) (bl : nat) (bb : N) (h : hdr) (d : list N),
+  c_mtu c = Some mtu ->
+  (576 <= mtu)%N ->
+  (mtu <= 9216)%N ->
+  (mtu <= c_rxsize c)%N ->
+  length buf = o (c_rxsize c) ->
+  BlockSafe.ledger_reg bl bb r w ->
+  parse_hdr buf = Some h ->
+  is_discovery_tos (h_tos h) = true ->
+  h_opc h = opcode_queryLargeTlv ->
+  h_seq h <> 0%N ->
+  h_b0 h = tlv_iconImage ->
+  g_icon g = Some d ->
+  exists (r' : registry) (w' : world),
+  parse_frame no_fail no_fail junk ctx c g r buf w = Ok r' w' /\
+  icon (SystemRefinement.reg_state r' ctx) =
+  Some match icon (SystemRefinement.reg_state r ctx) with
+  | Some d0 => d0
+  | None => d
+  end /\ BlockSafe.ledger_reg bl bb r' w'.
+Proof. exact C08_buffer_level_icon. Qed.
+Print Assumptions C08_icon_buffer_level.
